@@ -260,7 +260,13 @@ class Contract(object):
 
     def _havoc(self, ex, st, env):
         for (p, f) in self.modifies:
-            o = env.get(p)
+            if '.' in p:          # 'self._ctr': a field of an object reachable from a parameter
+                parts = p.split('.')
+                o = env.get(parts[0])
+                for fld in parts[1:]:
+                    o = st.heap.get((o.oid, fld)) if isinstance(o, VObj) else None
+            else:
+                o = env.get(p)
             if isinstance(o, VObj) and (o.oid, f) in st.heap:
                 old = st.heap[(o.oid, f)]
                 st.heap[(o.oid, f)] = fresh_like(old, f)
@@ -365,9 +371,16 @@ def _solve_split(ob, parts, ext, budget_ms):
 
 def discharge(c, ob, budget_ms):
     goal = ob.goal
+    budget_ms = int(budget_ms * ((getattr(c, 'opts', None) or {}).get('budget_factor', 1)))   # opt-in: heavier VCs
     if (getattr(c, 'opts', None) or {}).get('skolemize'):
         from .skolem import skolemize            # opt-in: makes terms under goal-side foralls ground
         goal = skolemize(goal)
+    if ob.kind.startswith('m2'):
+        # guard-dominance obligations: decided in the quantifier-free theory of equality + linear
+        # integers WITHOUT the sequence axioms (fewer assumptions: sound for 'proved'; a 'sat' answer is a
+        # countermodel over the opaque abstraction, reported as refuted-without-replay)
+        verdict, model, info = smt.solve_ground(ob.pc, goal, budget_ms)
+        return _mk_result(c, ob.name, ob.kind, verdict, info, None, ob.trace[-40:], ob.where)
     goal = expand_goal(goal)
     try:
         ext = ext_axioms(list(ob.pc) + [goal])
